@@ -14,7 +14,8 @@ LEVEL = "exploration"
 RULE = ("histories: generated programs over a real temporary git repository (isolated HOME / git config): write, edit, delete, git-mv of "
         "notebook and non-notebook files in nested directories, stage, commit, leaving staged and unstaged changes; then 1-4 queries, each "
         "a ref pair (commit/commit, commit/index, commit/working tree, index/working tree), a cwd (repository root or a sub-directory) and "
-        "optional path filters, answered by nbdime.gitfiles.changed_notebooks. Oracle = git itself: the multiset of yielded (base, remote) "
+        "optional path filters, answered by nbdime.gitfiles.changed_notebooks (a third of the commit queries through the nbdiff command line, incl. `nbdiff <path>` "
+        "with HEAD omitted; half of the repositories carry a tag named like a directory of the work tree). Oracle = git itself: the multiset of yielded (base, remote) "
         "contents equals the .ipynb entries of `git diff -M --name-status -z <refs> -- <paths>` run from the same cwd, each side's content "
         "equal to `git show <ref>:<path>` / `git show :<path>` / the working-tree file, the null file exactly for added / deleted entries, "
         "renames paired old-name@base with new-name@remote; non-notebooks never yielded; os.getcwd() is unchanged after every yielded pair "
